@@ -327,6 +327,7 @@ class Engine:
             srcs += [os.path.join(REPO, SRC[s]) for s in q.sources]
         if q.arch == "arm":
             srcs.append(os.path.join(VERIF, "model", "stubinc", "libc_small.c"))
+        srcs.append(os.path.join(VERIF, "model", "libc_extra.c"))    # bodies CBMC's library lacks (memchr, strnlen, ...)
         gb = os.path.join(wd, "w.gb" if witness else "q.gb")
         cmd = ["goto-cc", "-std=c99"]
         if q.arch == "arm":
@@ -587,6 +588,10 @@ class Engine:
                     rep = self.native_replay(q, wd, leaves, False, "cex")
                     rec["replay"] = rep
                     rec["confirmed"] = self.replay_confirms(rep, False)
+                    if not rec["confirmed"]:
+                        nb = sorted(set(f["property"].split(".no-body.")[1] for f in r["failed"] if ".no-body." in (f["property"] or "")))
+                        if nb:
+                            rec["reason"] = "counterexample not reproduced; callee(s) without a body return arbitrary values: " + ", ".join(nb)
                     break
                 if unw and attempt == 1 and q.depth_retry:
                     scale = 2
